@@ -147,6 +147,16 @@ pub(crate) fn convert(
 
     mask.root.calculate_bounding_boxes();
 
+    // Resolve paint servers of the mask content right away.
+    // A mask that is used by more than one element is shared and cannot be modified afterwards.
+    super::paint_server::update_paint_servers(
+        &mut mask.root,
+        Transform::default(),
+        None,
+        None,
+        cache,
+    );
+
     let mask = Arc::new(mask);
     cache.masks.insert(id_copy, mask.clone());
     Some(mask)
